@@ -86,7 +86,9 @@ Fixpoint expand_blocks (s : schema) (e : ebody) (partial : bool) (raws : list (b
       if String.eqb (btype rb) dynamic_name then
         let real := hd EmptyString (blabels rb) in
         if mem real (map fst (ehB e)) then (bs, ds)
-        else match find (fun c => String.eqb (fst c) real) (sblocks s) with
+        (* `for i := range schema.Blocks { if … { blockS = &schema.Blocks[i] } }`: no break,
+           the LAST entry of the type wins (as for static blocks and hiddenBlocks) *)
+        else match find (fun c => String.eqb (fst c) real) (rev (sblocks s)) with
              | None => if partial then (bs, ds) else (bs, (UnsupportedBlock, real) :: ds)
              | Some (_, k) =>
                  let '(nb, nd) := dyn_blocks real k (bbody rb) in (nb ++ bs, nd ++ ds)
